@@ -150,8 +150,11 @@ func c16Jobs(tier string) []*Job {
 			instants = append(instants, []int{max}, []int{min + 1, 2*min + 2})
 			// two transactions in a row (the second while the proposal triggered by the first is being agreed)
 			instants = append(instants, []int{min + 2_500, min + 2_500}, []int{3_000, 3_000})
+			// an idle block at the maximum, a transaction shortly after it (before anybody waits again), and another one
+			// during the extended wait two heights later
+			instants = append(instants, []int{max + 1_000, max + 2*min + 2_000})
 			if n == 7 || tier != "thorough" && ratio == 100 {
-				instants = append(instants[:3:3], []int{max}, []int{min + 2_500, min + 2_500})
+				instants = append(instants[:3:3], []int{max}, []int{min + 2_500, min + 2_500}, []int{max + 1_000, max + 2*min + 2_000})
 			}
 			for _, a := range []int64{-1, 0} {
 				if a == 0 && (n == 7 || ratio == 15 || ratio == 100) {
@@ -165,12 +168,16 @@ func c16Jobs(tier string) []*Job {
 					if tier == "thorough" && n <= 4 {
 						k = 2
 					}
-					sc := timedScen(fmt.Sprintf("C16-N%d-ratio%.1f-%s-tx%d", n, float64(ratio)/10, amevName(a), ii), n, "C16", withAMEV(a), withDyn(ratio), withPool(), withNewTx(ins...), withHeights(3), withK(k), withHorizon(3*5+4))
+					hts := 3
+					if len(ins) == 2 && ins[0] > max {
+						hts = 4 // idle block, transaction, busy block, extended wait with the second transaction
+					}
+					sc := timedScen(fmt.Sprintf("C16-N%d-ratio%.1f-%s-tx%d", n, float64(ratio)/10, amevName(a), ii), n, "C16", withAMEV(a), withDyn(ratio), withPool(), withNewTx(ins...), withHeights(hts), withK(k), withHorizon(hts*5+4))
 					sc.Dev.NotifyLag = len(ins) > 0
 					jobs = append(jobs, job(sc, per))
 					if len(ins) > 0 && (ratio == 15 || ratio == 30) && a == -1 {
 						// the same with the documented single-use subscription: a notification only after SubscribeForTxs
-						one := timedScen(fmt.Sprintf("C16-N%d-ratio%.1f-%s-tx%d-one-shot-subscription", n, float64(ratio)/10, amevName(a), ii), n, "C16", withAMEV(a), withDyn(ratio), withPool(), withNewTx(ins...), withHeights(3), withK(k), withHorizon(3*5+4))
+						one := timedScen(fmt.Sprintf("C16-N%d-ratio%.1f-%s-tx%d-one-shot-subscription", n, float64(ratio)/10, amevName(a), ii), n, "C16", withAMEV(a), withDyn(ratio), withPool(), withNewTx(ins...), withHeights(hts), withK(k), withHorizon(hts*5+4))
 						one.OneShotSub = true
 						jobs = append(jobs, job(one, per))
 					}
